@@ -103,6 +103,7 @@ struct CaseStats {
   int engine_errors = 0;
   char engine_msg[300] = {0};
   std::vector<uintptr_t> promo;
+  std::string trace_excerpt; // decoded head of the base execution's window
 };
 
 struct Opts {
@@ -662,6 +663,35 @@ restart:
                r->nsteps, st.base_choice_points);
     }
   }
+  // a decoded sample: the first visible operations of the base execution
+  {
+    mkdir("/verif/build", 0755);
+    mkdir("/verif/build/tmp", 0755);
+    char tp[200];
+    snprintf(tp, sizeof tp, "/verif/build/tmp/trace-%d.txt", (int)getpid());
+    int tfd = open(tp, O_RDWR | O_CREAT | O_TRUNC, 0644);
+    if (tfd >= 0) {
+      run_sync(c, base, horizon, true, tfd);
+      static char buf[6000];
+      lseek(tfd, 0, SEEK_SET);
+      ssize_t n = read(tfd, buf, sizeof buf - 1);
+      close(tfd);
+      unlink(tp);
+      if (n > 0) {
+        buf[n] = 0;
+        // keep whole lines, at most 40
+        int lines = 0;
+        char* q   = buf;
+        while (*q && lines < 40) {
+          if (*q == '\n')
+            ++lines;
+          ++q;
+        }
+        *q = 0;
+        st.trace_excerpt = buf;
+      }
+    }
+  }
   // (heap allocation in the parent only after the last fork of this case:
   // children must all start from the same heap image)
   st.promo.assign(promo, promo + npromo);
@@ -722,7 +752,19 @@ void emit_json(FILE* f, std::vector<CaseStats>& all, double wall) {
               i ? "," : "", kb, mb, verdict_name(v.verdict), sb,
               v.confirmed ? "true" : "false", v.count, v.replay_path);
     }
-    fprintf(f, "],\"samples\":[");
+    {
+      std::string esc;
+      for (unsigned char ch : s.trace_excerpt) {
+        if (ch == '"' || ch == '\\') {
+          esc += '\\';
+          esc += ch;
+        } else if (ch == '\n')
+          esc += "\\n";
+        else if (ch >= 0x20)
+          esc += ch;
+      }
+      fprintf(f, "],\"base_trace_excerpt\":\"%s\",\"samples\":[", esc.c_str());
+    }
     for (int i = 0; i < s.nsamples; ++i) {
       Sample& sm = s.samples[i];
       char sb[400];
